@@ -5,6 +5,11 @@
 // ended), the offline checker over the verifhook event trace (monotone states, one pending / one
 // build_start / one finish per target, dependencies built at build_start, exactly one terminal
 // result), and the Go race detector restricted to the scheduler's files.
+// Besides plain builds of buildable repositories (from empty / after an edit), a sixth of the cases are
+// non-building invocations (`plz query ...` on repositories whose BUILD files subinclude build_defs targets
+// that depend on each other: those are built during parsing while everything else is only activated), and a
+// sixth are builds with one failing action in a fan-in (a slow and a failing dependency of one target, the
+// failing one later in the scheduler's wait order), mostly with --keep_going: nothing may start after it.
 package c04
 
 import (
@@ -26,18 +31,35 @@ var anchors = []string{"/src/core/state.go", "/src/core/build_target.go", "/src/
 func TestC04(t *testing.T) {
 	r := lib.Start("C04")
 	defer lib.End(t, r)
-	r.Rule = "case = one plz build invocation (race-built binary) on a generated DAG (8-30 targets in 1-5 packages, diamonds and wide fan-in, optional subincluded build_defs built during parsing, actions sleeping 0-20 ms) with -n in {1,2,4,16}, GOMAXPROCS in {2,16} and seeded delay injection at scheduler hook points; even cases build from empty, odd cases rebuild after an edit; distinct by (repository, schedule parameters); non-trivial = at least 3 build steps started"
+	r.Rule = "case = one plz build invocation (race-built binary) on a generated DAG (8-30 targets in 1-5 packages, diamonds and wide fan-in, optional subincluded build_defs built during parsing, actions sleeping 0-20 ms) with -n in {1,2,4,16}, GOMAXPROCS in {2,16} and seeded delay injection at scheduler hook points; even cases build from empty, odd cases rebuild after an edit; cases 2 mod 6 get a directed failure (a target with a slow and an at-once-failing dependency, the failing one later in label order) and mostly --keep_going; cases 5 mod 6 are instead a `plz query deps|alltargets|input|output` (nothing requested is to be built) on a repository of 3-5 build_defs targets that take each other as sources, whose packages subinclude each other (slow parses) and which 1-3 further packages subinclude in random order; distinct by (repository, schedule parameters); non-trivial = at least 3 build steps started (2 for a query)"
 	r.Assumes = []string{"trace order is the verifhook sequence number (one process-wide atomic counter)", "only local builds are driven"}
 	bin := lib.PlzBin(true)
 	n := r.Pick(120, 4000)
 	r.ForEach("invocation", n, 8, func(i int, rng *rand.Rand) {
 		sb := e2e.NewSandbox(filepath.Join(r.Scratch(), fmt.Sprintf("c%d", i)))
 		defer lib.RemoveAll(sb.Work)
+		if only := os.Getenv("C04_DEV_ONLY"); only != "" && fmt.Sprint(i%6) != only {
+			return
+		}
+		if i%6 == 5 {
+			queryCase(r, i, rng, sb, bin)
+			return
+		}
 		opts := e2e.GenOpts{Tools: true, DirOuts: rng.Intn(2) == 0, Sleep: 20, MinTargets: 8, MaxTargets: 30, MaxPkgs: 5, DepOneIn: 2 + rng.Intn(4), Subinclude: rng.Intn(3) == 0}
 		state := e2e.Generate(rng, opts)
 		state.VLog = sb.VLog
 		incremental := i%2 == 1
 		state.Strict = !incremental
+		// Directed failure: one action fails at once while a sibling dependency of the same target still runs.
+		var shape *fanIn
+		keepGoing := false
+		if i%6 == 2 {
+			if f, ok := shapeFanInFailure(rng, state); ok {
+				shape, keepGoing = &f, rng.Intn(4) != 0
+				r.Obs("failure_shaped_cases", 1)
+				r.ObsDistinct("failure_shape_via", f.Via)
+			}
+		}
 		if err := state.Materialize(sb.Repo); err != nil {
 			panic(err)
 		}
@@ -54,6 +76,9 @@ func TestC04(t *testing.T) {
 			}
 		}
 		args := []string{"build", "-n", fmt.Sprint(threads), "//..."}
+		if keepGoing {
+			args = []string{"build", "-n", fmt.Sprint(threads), "--keep_going", "//..."}
+		}
 		rounds := 1
 		if incremental {
 			rounds = 2
@@ -76,26 +101,34 @@ func TestC04(t *testing.T) {
 			probe := sb.ReadProbe()
 			evs, _ := e2e.ReadTrace(filepath.Join(sb.Work, fmt.Sprintf("trace%d", k)))
 			sum, findings := e2e.CheckTrace(evs, res.Exit == 0)
-			r.Case(lib.JSON(state.AllFiles())+fmt.Sprint(threads, maxprocs, prob, maxus, k), sum.BuildStarts >= 3)
+			r.Case(lib.JSON(state.AllFiles())+fmt.Sprint(threads, maxprocs, prob, maxus, k, keepGoing), sum.BuildStarts >= 3)
 			r.Obs("invocations", 1)
 			r.Obs("trace_events", int64(sum.Events))
 			r.Obs("build_steps_started", int64(sum.BuildStarts))
 			r.Obs("commands_executed", int64(len(probe.Started)))
 			r.ObsDistinct("schedule_signatures", sum.Signature)
 			wit := map[string]any{"state": state, "threads": threads, "gomaxprocs": maxprocs, "delay": fmt.Sprintf("%g:%d", prob, maxus), "round": k, "edit": edit, "stderr": lib.Tail(res.Stderr, 1500)}
+			if shape != nil {
+				wit["failure_shape"], wit["keep_going"] = shape, keepGoing
+			}
 			// Exit 66 is the race detector's own exit status (halt_on_error=0: the build ran to the end and
 			// the reports are in the race log, which is classified below); it is not a build failure.
 			raceExit := res.Exit == 66 && len(lib.ParseRaceLogs(filepath.Join(sb.Work, "race"), anchors)) > 0
 			if raceExit {
 				r.Obs("invocations_with_race_exit", 1)
 			}
-			if res.Exit != 0 && !raceExit {
+			crashed := strings.Contains(res.Stderr, "panic:") || strings.Contains(res.Stderr, "fatal error:")
+			if res.Exit != 0 && !raceExit && (shape == nil || crashed) {
 				key := "build-fails"
-				if strings.Contains(res.Stderr, "panic:") || strings.Contains(res.Stderr, "fatal error:") {
+				if crashed {
 					key = "runtime-panic"
 				}
 				r.Violation(key, fmt.Sprintf("plz build of a buildable generated repository exited %d (threads=%d)", res.Exit, threads), wit, i)
 				return
+			}
+			if shape != nil {
+				// (that plz exits non-zero here is C05's business)
+				afterFailure(r, i, state, shape, probe, sum, wit)
 			}
 			for _, v := range probe.Violations {
 				f := strings.Fields(v)
@@ -107,7 +140,7 @@ func TestC04(t *testing.T) {
 				r.Violation("trace/"+f.Key, f.What, wit, i)
 			}
 			// every command that started also ended, and every executed command appears in the trace
-			if len(probe.Started) != len(probe.Ended) {
+			if len(probe.Started) != len(probe.Ended) && shape == nil {
 				r.Violation("command-started-not-ended", fmt.Sprintf("started %v ended %v with exit 0", probe.Started, probe.Ended), wit, i)
 			}
 			if r.WantSample() {
@@ -134,4 +167,120 @@ func TestC04(t *testing.T) {
 		}
 	})
 	r.RequireObserved("invocations", "trace_events", "build_steps_started", "commands_executed")
+}
+
+// afterFailure: nothing downstream of the failed action may have started, neither its command (probe) nor its build step (trace).
+func afterFailure(r *lib.Run, i int, state *e2e.Repo, shape *fanIn, probe e2e.Probe, sum e2e.TraceSummary, wit map[string]any) {
+	downstream := func(label string) bool { return label != shape.Fail && state.Closure(label)[shape.Fail] }
+	failedRan := false
+	for _, id := range probe.Started {
+		for _, tg := range state.Targets {
+			if tg.ID() != id {
+				continue
+			}
+			if tg.Label() == shape.Fail {
+				failedRan = true
+			}
+			if downstream(tg.Label()) {
+				r.Violation("command-ran-after-failed-dependency", fmt.Sprintf("the command of %s ran although %s, which it depends on, had failed", tg.Label(), shape.Fail), wit, i)
+			}
+		}
+	}
+	for _, l := range sum.Started {
+		if downstream(l) {
+			r.Violation("trace/build-step-downstream-of-failure", fmt.Sprintf("the build step of %s started although %s, which it depends on, had failed", l, shape.Fail), wit, i)
+		}
+	}
+	if failedRan {
+		r.Obs("failing_action_ran", 1)
+	}
+}
+
+// queryCase is one non-building invocation on a repository of interdependent, subincluded build_defs targets.
+func queryCase(r *lib.Run, i int, rng *rand.Rand, sb *e2e.Sandbox, bin string) {
+	q := genQuery(rng)
+	q.VLog = sb.VLog
+	files := q.files()
+	if err := lib.WriteTree(sb.Repo, files); err != nil {
+		panic(err)
+	}
+	threads := []int{1, 2, 4, 16}[rng.Intn(4)]
+	maxprocs := []int{2, 16}[rng.Intn(2)]
+	prob := []float64{0, 0.05, 0.3}[rng.Intn(3)]
+	maxus := []int{0, 200, 2000}[rng.Intn(3)]
+	trace := filepath.Join(sb.Work, "trace0")
+	env := []string{
+		fmt.Sprintf("GOMAXPROCS=%d", maxprocs),
+		"VERIF_TRACE=" + trace,
+		fmt.Sprintf("VERIF_HOOK_DELAY=%d:%g:%d", rng.Int63n(1<<30), prob, maxus),
+		"GORACE=halt_on_error=0 log_path=" + filepath.Join(sb.Work, "race"),
+	}
+	args := append([]string{"-n", fmt.Sprint(threads)}, q.queryArgs(rng)...)
+	res := sb.Plz(bin, env, 300*time.Second, args...)
+	if res.TimedOut {
+		r.Inconclusive(fmt.Sprintf("case %d: plz query did not finish within the 300 s watchdog (C05 decides hangs)", i))
+		return
+	}
+	probe := sb.ReadProbe()
+	evs, _ := e2e.ReadTrace(trace)
+	sum, findings := e2e.CheckTrace(evs, res.Exit == 0)
+	r.Case(lib.JSON(files)+fmt.Sprint(args, maxprocs, prob, maxus), sum.BuildStarts >= 2)
+	r.Obs("invocations", 1)
+	r.Obs("query_invocations", 1)
+	r.Obs("trace_events", int64(sum.Events))
+	r.Obs("build_steps_started", int64(sum.BuildStarts))
+	r.Obs("build_steps_started_by_queries", int64(sum.BuildStarts))
+	r.Obs("commands_executed", int64(len(probe.Started)))
+	r.ObsDistinct("schedule_signatures", sum.Signature)
+	r.ObsDistinct("query_kinds", args[3])
+	wit := map[string]any{"repo": q, "files": files, "args": args, "gomaxprocs": maxprocs, "delay": fmt.Sprintf("%g:%d", prob, maxus), "stderr": lib.Tail(res.Stderr, 1500)}
+	races := lib.ParseRaceLogs(filepath.Join(sb.Work, "race"), anchors)
+	raceExit := res.Exit == 66 && len(races) > 0
+	if res.Exit != 0 && !raceExit {
+		key := "query-fails"
+		if strings.Contains(res.Stderr, "panic:") || strings.Contains(res.Stderr, "fatal error:") {
+			key = "runtime-panic"
+		}
+		// the trace and the probe say why (if the scheduler is why); report those first
+		for _, v := range probe.Violations {
+			r.Violation("probe-"+strings.Fields(v)[0], "action probe: "+v, wit, i)
+		}
+		for _, f := range findings {
+			wit["finding"] = f.What
+			r.Violation("trace/"+f.Key, f.What, wit, i)
+		}
+		r.Violation(key, fmt.Sprintf("plz %s on a well-formed generated repository exited %d", strings.Join(args, " "), res.Exit), wit, i)
+		return
+	}
+	for _, v := range probe.Violations {
+		wit["probe"] = probe.Violations
+		r.Violation("probe-"+strings.Fields(v)[0], "action probe: "+v, wit, i)
+	}
+	for _, f := range findings {
+		wit["finding"] = f.What
+		r.Violation("trace/"+f.Key, f.What, wit, i)
+	}
+	if len(probe.Started) != len(probe.Ended) {
+		r.Violation("command-started-not-ended", fmt.Sprintf("started %v ended %v with exit 0", probe.Started, probe.Ended), wit, i)
+	}
+	for _, rep := range races {
+		if rep.Anchor {
+			txt := rep.Text
+			if len(txt) > 5000 {
+				txt = txt[:5000]
+			}
+			r.Violation("race:"+rep.Key, "data race in scheduler code reported by the race detector", map[string]any{"report": txt, "repo": q, "args": args}, i)
+			r.Obs("race_reports_anchored", 1)
+		} else {
+			r.Obs("race_reports_elsewhere", 1)
+			r.ObsDistinct("races_elsewhere", rep.Key)
+			r.NoteOnce("race_elsewhere:"+rep.Key, rep.Text)
+		}
+	}
+	if _, err := os.Stat(trace); err != nil {
+		r.FatalInconclusive("no trace file was written: hooks not compiled in?")
+	}
+	if r.WantSample() && i%12 == 5 {
+		r.Sample(map[string]any{"query": args, "defs_targets": len(q.Defs), "app_packages": len(q.Apps), "signature": sum.Signature, "events": sum.Events})
+	}
 }
